@@ -62,6 +62,9 @@ def check_log(rep, log, recs, eligible, faulty, what, replay):
             end[p] = end.get(p, 0) + 1; items += e.get('items', 0)
         elif e['ev'] == 'send':
             sends += 1
+            depth = sends - recv_ok
+            if depth > rep['counters'].get('max_items_in_flight', 0):
+                rep['counters']['max_items_in_flight'] = depth
         elif e['ev'] == 'recv':
             recv_tids.add(e['tid'])
             if e.get('got'):
@@ -77,6 +80,72 @@ def check_log(rep, log, recs, eligible, faulty, what, replay):
     return sig, len(evs)
 
 
+def single_file_runs(argv, files, d):
+    """the independence oracle: every file scanned alone, in its own process"""
+    import concurrent.futures as cf
+
+    def one(p):
+        rc, out, err = sg(argv() + [p], cwd=d)
+        try:
+            return p, sorted(norm(r) for r in parse_stream(out))
+        except Exception:
+            return p, None
+    with cf.ThreadPoolExecutor(max_workers=common.NCPU) as ex:
+        return dict(ex.map(one, sorted(files)))
+
+
+def run_big_tree(rep, ctx, work, rng):
+    """Many small files and a slow consumer: the producers run far ahead of the printing thread
+    (hundreds of items queued), through a recv failpoint or a stdout reader that starts late."""
+    import subprocess, time
+    n = rng.randint(1500, 3000) if ctx.thorough else rng.randint(600, 800)
+    files = {}
+    for i in range(n):
+        files[os.path.join(rng.choice(['', 'a', 'b/c']), f'g{i}.js')] = rng.choice(JS) + ('// ' + 'x' * rng.randint(0, 200) + '\n')
+    d = os.path.join(work, 'big')
+    common.write_tree(d, files)
+    name, argv = modes(work)[0]
+    expected = single_file_runs(argv, files, d)
+    want = sorted(x for p, v in expected.items() if v for x in v)
+    eligible = sorted(files)
+    variants = [(16, 'recv=2000', False), (4, 'recv=1500', False), (16, None, True), (1, None, True), (8, 'produce=300,recv=3000', True)]
+    if ctx.thorough:
+        variants = variants * 3
+    for vi, (t, delays, slow_reader) in enumerate(variants):
+        log = os.path.join(work, f'log-big-{vi}.jsonl')
+        open(log, 'w').close()
+        env = dict(os.environ); env['NO_COLOR'] = '1'; env['AST_GREP_VERIF_LOG'] = log
+        if delays:
+            env['AST_GREP_VERIF_DELAYS'] = f'{delays};seed={rng.randint(1, 10**6)}'
+        args = [common.SG] + argv() + ['-j', str(t), '.']
+        pr = subprocess.Popen(args, cwd=d, env=env, stdout=subprocess.PIPE, stderr=subprocess.PIPE)
+        if slow_reader:
+            time.sleep(0.7)  # the pipe (64 KiB) fills, the printing thread blocks, producers keep going
+        try:
+            out, err = pr.communicate(timeout=600)
+        except subprocess.TimeoutExpired:
+            pr.kill(); rep['inconclusive'] += 1
+            continue
+        rep['evaluations'] += 1
+        count(rep, 'big_tree_runs')
+        what = f'big tree ({n} files) run -j {t} delays={delays} slow_reader={slow_reader}'
+        replay = {'monitor': 'py:c17', 'big_tree_files': n, 'threads': t, 'delays': delays, 'slow_reader': slow_reader}
+        try:
+            recs = parse_stream(out)
+        except Exception as ex:
+            add_violation(rep, 'C17/output-malformed/big', f'{what}: {ex}; stderr {err[-200:]!r}', replay)
+            continue
+        got = sorted(norm(x) for x in recs)
+        if got != want:
+            missing = len(set(want) - set(got)); extra = len(set(got) - set(want))
+            kind = 'lost' if missing and not extra else 'duplicated-or-invented' if extra and not missing else 'differs'
+            add_violation(rep, f'C17/records/{kind}/big', f'{what}: {len(got)} records, union of single-file runs has {len(want)} (missing {missing}, extra {extra}); stderr {err[-200:]!r}', replay)
+        sig, nev = check_log(rep, log, recs, eligible, {}, what, replay)
+        rep['_sigs'].add(sig)
+        count(rep, 'events', nev); count(rep, 'records', len(recs))
+    shutil.rmtree(d, ignore_errors=True)
+
+
 def run_tree(rep, ctx, work, k, rng):
     n = rng.randint(50, 400) if ctx.thorough else rng.randint(40, 90)
     files = gen_tree(rng, n)
@@ -87,13 +156,7 @@ def run_tree(rep, ctx, work, k, rng):
     reps = 6 if ctx.thorough else 3
     for mname, argv in modes(work):
         # expected: union of single-file runs
-        expected = {}
-        for p in sorted(files):
-            rc, out, err = sg(argv() + [p], cwd=d)
-            try:
-                expected[p] = sorted(norm(r) for r in parse_stream(out))
-            except Exception:
-                expected[p] = None
+        expected = single_file_runs(argv, files, d)
         healthy_union = sorted(x for p, v in expected.items() if v for x in v)
         # faults: a random subset of files is damaged
         fault_plans = [('none', {})]
@@ -170,6 +233,58 @@ def run_tree(rep, ctx, work, k, rng):
     shutil.rmtree(d, ignore_errors=True)
 
 
+def tsan_pass(rep, ctx, work):
+    """Thorough tier: the same workload on a ThreadSanitizer build of the CLI (std instrumented)."""
+    import sanitize, subprocess
+    ok, msg = sanitize.build_tsan()
+    if not ok:
+        rep['inconclusive'] += 1
+        rep['notes'].append('tsan: build unavailable: ' + msg[-300:])
+        return
+    rng = ctx.rng
+    files = gen_tree(rng, 300)
+    d = os.path.join(work, 'tsan-tree')
+    common.write_tree(d, files)
+    common.write_tree(work, {'sgconfig.yml': 'ruleDirs: [rules]\n', **{f'rules/{i}.yml': json.dumps(r) for i, r in RULES.items()}})
+    for mname, argv in modes(work):
+        base = None
+        for t in [1, 2, 4, 8, 16]:
+            for r in range(3):
+                logbase = os.path.join(work, f'tsan-{mname}-{t}-{r}')
+                env = dict(os.environ); env.pop('AST_GREP_VERIF_LOG', None)
+                env.update(sanitize.tsan_env(logbase)); env['NO_COLOR'] = '1'
+                if r:
+                    env['AST_GREP_VERIF_DELAYS'] = f'produce={rng.choice([200, 2000])},send={rng.choice([0, 500])},recv={rng.choice([0, 500, 3000])};seed={rng.randint(1, 10**6)}'
+                try:
+                    p = subprocess.run([sanitize.SG_TSAN] + argv() + ['-j', str(t), '.'], cwd=d, env=env, stdout=subprocess.PIPE, stderr=subprocess.PIPE, timeout=900)
+                except subprocess.TimeoutExpired:
+                    rep['inconclusive'] += 1
+                    continue
+                count(rep, 'tsan_runs')
+                rep['evaluations'] += 1
+                try:
+                    got = sorted(norm(x) for x in parse_stream(p.stdout))
+                except Exception:
+                    got = None
+                if base is None:
+                    base = got
+                elif got != base:
+                    add_violation(rep, 'C17/records/differs/tsan', f'tsan {mname} -j {t}: records differ from the -j 1 run', {'monitor': 'py:c17', 'mode': mname, 'threads': t})
+                for tr in sanitize.collect_tsan(logbase):
+                    sites = sanitize.classify_tsan(tr)
+                    if sites:
+                        count(rep, 'tsan_reports_ast_grep')
+                        add_violation(rep, f"C17/tsan/{tr['kind'].replace(' ', '-')}/{'|'.join(sorted(set(sites)))}",
+                                      f"ThreadSanitizer {tr['kind']} in {mname} -j {t}: {tr['summary']}",
+                                      {'monitor': 'py:c17', 'mode': mname, 'threads': t, 'stacks': [s[:10] for s in tr['stacks'][:2]]})
+                    else:
+                        count(rep, 'tsan_reports_third_party')
+                        note = f"tsan third-party observation: {tr['kind']}: {tr['summary'][:160]}"
+                        if note not in rep['notes'] and len(rep['notes']) < 20:
+                            rep['notes'].append(note)
+    shutil.rmtree(d, ignore_errors=True)
+
+
 def run(ctx):
     rep = new_report(); rep['_sigs'] = set(); rep['_orders'] = set()
     work = ctx.workdir()
@@ -177,6 +292,9 @@ def run(ctx):
     n = 10 if ctx.thorough else 3
     for k in range(n):
         run_tree(rep, ctx, work, k, ctx.rng)
+    run_big_tree(rep, ctx, work, ctx.rng)
+    if ctx.thorough or os.environ.get('VERIF_SANITIZE'):
+        tsan_pass(rep, ctx, work)
     rep['counters']['distinct_interleaving_signatures'] = len(rep['_sigs'])
     rep['counters']['distinct_consume_orders'] = len(rep['_orders'])
     rep['distinct_nontrivial'] = len(rep.pop('_sigs'))
